@@ -249,6 +249,12 @@ class SpecMixin:
             ob = st.obj(cur)
             shape = c.field_shapes.get(path)
             if shape is None:
+                sh = c.shapes.get(parts[0])
+                for p in parts[1:]:
+                    sh = getattr(sh, "fields", {}).get(p) if sh is not None else None
+                if sh is not None and sh.kind != "oneof":
+                    shape = sh
+            if shape is None:
                 shape = self.field_shape(ob, fld)
             st, v = maker.make(st, shape, self.fresh(f"{c.short}.{path}"))
             st = st.write_field(cur, fld, v)
